@@ -362,10 +362,12 @@ def finish(res, tier, seed, t0, checker_cmd):
                     still[key] = (t, c, v, a.status if a.status != 'undecided' else b_.status, a.reason or b_.reason)
         elif regress:
             still = {k: (t, c, v, 'undecided', v.reason) for k, (t, c, v) in regress.items()}
+        seen_regress = set()
         for key, (t, c, v, status, reason) in still.items():
             vk_ = f'{v.obl.name}@{t.fullname}'
-            if any(x.key == vk_ for x in viols):
+            if any(x.key == vk_ for x in viols) or vk_ in seen_regress:
                 continue
+            seen_regress.add(vk_)
             viol = Violation(vk_, f'obligation `{v.obl.name}` of {t.fullname} (line {v.obl.lineno}, config {c.name}) was discharged on the unchanged tree and cannot be '
                                    f'discharged any more ({"refuted on retry" if status == "refuted" else "solver: " + (reason or "unknown / timeout")})',
                              kind='obligation', function=t.fullname, obligation=v.obl.name)
